@@ -183,6 +183,8 @@ func c12PairPool() [][2]*ref.Expr {
 		// float-valued keys and values (a literal and a computed one)
 		{ref.Fl(1.5), s("x")},
 		{ref.Bin("*", ref.Fl(0.5), ref.N(3)), ref.Fl(2.25)},
+		// the value is the key itself (no copy is made by an operator or a call)
+		{s("ab"), ref.Key()},
 	}
 }
 
@@ -646,9 +648,59 @@ func c11Preds() []*ref.Expr {
 var c11Limits = [][]int{nil, {1}, {2}, {0, 0}, {1, 1}, {1, 2}, {2, 1}, {0, 3}, {3, 1}, {1, 3}, {1, 4}, {2, 2}, {0, 4}, {4, 4}}
 var c11Polls = []string{"N", "B", "NN", "BB", "NB", "BN", "NNN", "BBB", "BNB"}
 
-func (c11) Units(t core.Tier) int { return len(reachableStates()) }
+const c11LongUnits = 8
+
+func (c11) Units(t core.Tier) int { return len(reachableStates()) + c11LongUnits }
+
+// c11Long: DELETE over 8-pair stores outside the 81-state space (every
+// accept/reject pattern of a value filter), so that child chunks larger than
+// the batch size, several chunks per statement and LIMIT windows across chunk
+// boundaries occur; judged against the same model.
+func c11Long(t core.Tier, part int, r *core.Reporter) {
+	k, v, sx := ref.Key, ref.Value, ref.S
+	var all []*ref.Expr
+	for i := 0; i < 8; i++ {
+		all = append(all, sx(fmt.Sprintf("k%d", i)))
+	}
+	preds := []*ref.Expr{
+		ref.Bin("=", v(), sx("y")),
+		ref.Bin("&", ref.Bin("^=", k(), sx("k")), ref.Bin("=", v(), sx("y"))),
+		ref.Bin("&", ref.Bin(">=", k(), sx("k0")), ref.Bin("!=", v(), sx("n"))),
+		ref.Bin("&", ref.In(k(), all...), ref.Bin("=", v(), sx("y"))),
+		ref.Bin("|", ref.Bin("=", v(), sx("y")), ref.Bin("=", k(), sx("k7"))),
+	}
+	bs := []int{1, 2, 3}
+	if t == core.Thorough {
+		bs = []int{1, 2, 3, 4, 5}
+	}
+	for pat := part; pat < 256; pat += c11LongUnits {
+		ps := make([]store.Pair, 8)
+		for i := range ps {
+			val := "n"
+			if pat&(1<<i) != 0 {
+				val = "y"
+			}
+			ps[i] = store.Pair{K: fmt.Sprintf("k%d", i), V: val}
+		}
+		for _, p := range preds {
+			for _, lim := range [][]int{nil, {1, 3}, {2, 4}, {0, 5}, {3}} {
+				w := &wstmt{Kind: "delete", Pred: p, Lim: lim}
+				for _, b := range bs {
+					for _, polls := range []string{"N", "B"} {
+						c := wcase{Prop: "C11", Prior: ps, Stmt: w, B: b, Polls: polls}
+						runWriteCase(r, &c)
+					}
+				}
+			}
+		}
+	}
+}
 
 func (c11) RunUnit(t core.Tier, u int, r *core.Reporter) {
+	if u >= len(reachableStates()) {
+		c11Long(t, u-len(reachableStates()), r)
+		return
+	}
 	stt := reachableStates()[u]
 	r.Count("states", 1)
 	r.Max("max_shortest_history", int64(len(stt.history)))
@@ -712,7 +764,7 @@ func (c12) Info() core.Info {
 		ID:    "C12",
 		Title: "PUT and REMOVE apply exactly the stated writes, once, all-or-nothing",
 		Level: "model_checking",
-		Rule: "explicit-state search over the same 81-state space as C11: transitions = long `put` / `remove` lists (4..40 elements with duplicate keys in three patterns) and `put` with every list of 1..3 pairs from a pool of 14 pair expressions (literals, duplicate keys, concatenated and numeric keys, values that read `key`, function calls) plus 3 failing ones at every position, `remove` with every list of 1..3 keys from a pool of 10 (one failing), each under every poll word of length 1..4 over {Next,Batch} (quick: length <= 3 for 3-element lists) at batch sizes {1,32}, plus statically forbidden forms; every transition runs on the real plan over a clone of the state. Oracle: post-state = model (later duplicate wins; value sees its own key); the pairs/keys carried by the mutating calls, in call order, are exactly the evaluated list (each stated write once); no write on evaluation failure; no storage call and no row on later polls; a follow-up `select * where key = k` observes each write; forbidden forms are rejected with an empty call log. " +
+		Rule: "explicit-state search over the same 81-state space as C11 (C11 additionally runs DELETE over all 256 accept/reject patterns of 8-pair stores): transitions = long `put` / `remove` lists (4..40 elements with duplicate keys in three patterns) and `put` with every list of 1..3 pairs from a pool of 15 pair expressions (literals, duplicate keys, concatenated and numeric keys, values that read `key`, function calls) plus 3 failing ones at every position, `remove` with every list of 1..3 keys from a pool of 10 (one failing), each under every poll word of length 1..4 over {Next,Batch} (quick: length <= 3 for 3-element lists) at batch sizes {1,32}, plus statically forbidden forms; every transition runs on the real plan over a clone of the state. Oracle: post-state = model (later duplicate wins; value sees its own key); the pairs/keys carried by the mutating calls, in call order, are exactly the evaluated list (each stated write once); no write on evaluation failure; no storage call and no row on later polls; a follow-up `select * where key = k` observes each write; forbidden forms are rejected with an empty call log. " +
 			"Non-trivial: the statement changes the state or fails at evaluation. Distinct: (state, statement, B, polls).",
 		Assumptions:      []string{"whether writes travel as Put or BatchPut is not prescribed (the property says 'exactly once')", "numbers written by PUT are compared as decimal integers only (no float rendering is documented)"},
 		CrashIsViolation: true,
